@@ -346,6 +346,12 @@ pub fn make_assets<'w>(
     pre_mask: u64,
 ) -> Assets<'w> {
     let mut a = Assets::new(world, spend, target.ecdsa.clone());
+    let mut salt = 0xcbf2_9ce4_8422_2325u64;
+    for b in case.desc.bytes() {
+        salt = (salt ^ b as u64).wrapping_mul(0x100_0000_01b3);
+    }
+    salt ^= key_mask.wrapping_mul(0x9e37_79b9_7f4a_7c15) ^ pre_mask.rotate_left(23);
+    a.vary_hashtypes(salt >> 7);
     for (i, id) in case.key_ids().iter().enumerate() {
         if key_mask & (1 << i) != 0 {
             a.keys.insert(*id);
